@@ -293,6 +293,26 @@ func (r *caseRun) opAppendBad() {
 	r.c.Branch("corrupt-entry")
 }
 
+// opGetFail = one replica loop iteration whose GetMessage fails for the next entry (an unreadable,
+// i.e. corrupt, one): partition.replica calls replicator.IgnoreMessage(seq) and NOT Replica, so the
+// family's sequence must stay and the group ack may move only if the entry is exactly ack+1.
+func (r *caseRun) opGetFail() {
+	e, ok := r.nextEntry()
+	if !ok || !e.Bad {
+		return
+	}
+	before := r.n.pos()
+	if !r.guard("getfail", func() error { return r.n.applyGetFail(e) }) {
+		return
+	}
+	after := r.n.pos()
+	if after.ack > before.ack && before.ack+1 != e.Seq {
+		r.c.Branch("getfail-ack-jumped")
+	}
+	r.c.Op(r.lop("getfail"), r.P())
+	r.c.Branch("getmessage-fails-ignore-only")
+}
+
 func (r *caseRun) opAppend(m, t int) {
 	if r.n.part == nil {
 		return
@@ -1796,6 +1816,21 @@ func (r *caseRun) applyAll() {
 	}
 }
 
+// applyAllGetFail drains the current log; unreadable entries fail at GetMessage (IgnoreMessage only).
+func (r *caseRun) applyAllGetFail() {
+	for r.n != nil && !r.broken && r.n.pending() {
+		if e, ok := r.nextEntry(); ok && e.Bad {
+			c0 := r.n.cg.ConsumedSeq()
+			r.opGetFail()
+			if r.n == nil || r.n.cg == nil || r.n.cg.ConsumedSeq() == c0 {
+				return
+			}
+			continue
+		}
+		r.opApply()
+	}
+}
+
 // applyAllLanes drains every leader's log.
 func (r *caseRun) applyAllLanes() {
 	old := r.cur
@@ -1884,6 +1919,52 @@ func (r *caseRun) corruptAfterUnflushed() {
 	r.opFlushData(noCrash, false)
 	r.opAppendBad()
 	r.opApply()
+	r.opCrash()
+}
+
+// getFailAfterUnflushed: entries 0..1 flushed, 2..3 applied but not flushed, entry 4 unreadable at
+// GetMessage (partition.replica's error branch: IgnoreMessage only), crash: the acknowledged position
+// must not have moved past 2..3 and the family's sequence must not have moved at all; after the
+// restart 2..3 are replayed. Then an unreadable entry right behind a fully flushed log (acknowledged
+// without a flush, family sequence stays BELOW the ack), a valid entry behind it, flush, crash.
+func (r *caseRun) getFailAfterUnflushed() {
+	r.opAppend(0, 0)
+	r.opApply()
+	r.opAppend(1, 1)
+	r.opApply()
+	r.opFlushMeta()
+	r.opFlushIndex()
+	r.opFlushData(noCrash, false)
+	r.opAppend(0, 1)
+	r.opApply()
+	r.opAppend(1, 0)
+	r.opApply()
+	r.opAppendBad()
+	r.opGetFail()
+	r.opCrash()
+	if r.stop() {
+		return
+	}
+	// after the restart: 2, 3 replayed, the unreadable entry fails again (family sequence 3, ack 1)
+	r.opApply()
+	r.opApply()
+	r.opGetFail()
+	r.opFlushMeta()
+	r.opFlushIndex()
+	r.opFlushData(noCrash, false)
+	// fully flushed log (stored 3, ack 3, consumed 4): the next unreadable entry IS acknowledged
+	r.opAppendBad()
+	r.opGetFail()
+	r.opAppend(0, 0)
+	r.opApply()
+	r.opCrash()
+	if r.stop() {
+		return
+	}
+	r.applyAll()
+	r.opFlushMeta()
+	r.opFlushIndex()
+	r.opFlushData(noCrash, false)
 	r.opCrash()
 }
 
@@ -2310,8 +2391,12 @@ func (r *caseRun) randomCase(disciplined bool) {
 		case k < 4:
 			// a log entry that does not decompress
 			r.opAppendBad()
-			if rng.Intn(3) != 0 {
+			switch rng.Intn(3) {
+			case 1:
 				r.applyAll()
+			case 2:
+				// the unreadable entry fails one level earlier: GetMessage error in partition.replica
+				r.applyAllGetFail()
 			}
 		case k < 40:
 			m, t := pick()
@@ -2488,7 +2573,7 @@ func (r *caseRun) randomCase(disciplined bool) {
 // ---------------------------------------------------------------- Run
 
 // lastScripted: cases 0..lastScripted are fixed histories
-const lastScripted = 31
+const lastScripted = 32
 
 func (area) Run(c *core.Ctx) error {
 	repo := os.Getenv("VERIF_REPO")
@@ -2593,6 +2678,9 @@ func (area) Run(c *core.Ctx) error {
 				c.Branch("crash-at-manifest-record-scripted")
 				x := [][3]int{{innerData, 0, 0}, {innerData, 0, 1}, {innerMeta, 0, 1}, {innerMeta, 1, 0}, {innerIndex, 0, 1}, {innerIndex, 2, 0}}[i-26]
 				r.crashAtManifestRecord(x[0], x[1], x[2] == 1)
+			case i == 32:
+				c.Branch("getmessage-fails-after-unflushed")
+				r.getFailAfterUnflushed()
 			case i%4 == 3:
 				c.Branch("wild")
 				r.randomCase(false)
